@@ -42,6 +42,22 @@ theorem C17_ordered_only_fifo (f : Factory) (ops : List Op) (hops : ∀ o ∈ op
     ∃ res, (r.1.step .pop).2 = .popped r.1.contents.head? res :=
   ordered_only_fifo f ops hops hord
 
+/-- **… expressed as an index: 0.** Let `pend` be ANY list kept in push order whose image under a view `v` is the queue
+contents (the list `Sender.St.pending` of the sender model with `v` = the scheduler-visible fields of a chunk; the harness'
+white-box shadow of the real queue). Under the hypotheses of `C17_ordered_only_fifo` the chunk the next `peek` returns
+and the chunk the next `pop` is handed are the view of `pend[0]` — the selection oracle of the sender model is index 0. -/
+theorem C17_ordered_only_index_zero {β : Type} (f : Factory) (ops : List Op) (hops : ∀ o ∈ ops, o.basic = true)
+    (hord : ∀ c ∈ pushesOf ((PQ.new f : PQ α).run ops).2, c.unordered = false)
+    (pend : List β) (v : β → Chunk) (hv : pend.map v = ((PQ.new f : PQ α).run ops).1.contents) :
+    let r := (PQ.new f : PQ α).run ops
+    (r.1.step .peek).2 = .peeked (.chunk (pend[0]?.map v)) ∧
+    ∃ res, (r.1.step .pop).2 = .popped (pend[0]?.map v) res := by
+  obtain ⟨_, h2, h3⟩ := ordered_only_fifo f ops hops hord
+  have hh : ((PQ.new f : PQ α).run ops).1.contents.head? = pend[0]?.map v := by
+    rw [← hv, List.head?_map, List.head?_eq_getElem?]
+  rw [hh] at h2 h3
+  exact ⟨h2, h3⟩
+
 /-! ## tests by evaluation and non-vacuity (`decide` on a concrete run — a test, not a theorem) -/
 
 -- two ordered streams, a fragmented message on each, pops in between, a stale peek
